@@ -78,6 +78,56 @@ class CoopRLock:
         return self.owner == self._me()
 
 
+class CoopLock(CoopRLock):
+    """Non re-entrant variant (`threading.Lock`): a second acquire by the owner blocks."""
+
+    def acquire(self, blocking=True, timeout=-1):
+        me = self._me()
+        s = _ACTIVE
+        if isinstance(me, tuple) or s is None:
+            if self.owner is not None:
+                raise RuntimeError("CoopLock contended outside a running scheduler")
+        else:
+            while self.owner is not None:
+                if not blocking:
+                    return False
+                s._block(me, self)
+        self.owner = me
+        self.count = 1
+        return True
+
+    def locked(self):
+        return self.owner is not None
+
+
+_ARMED = [0]  # > 0 while `patch_locks()` is in force: lock factories hand out cooperative locks
+_REAL_RLOCK = threading.RLock
+_REAL_LOCK = threading.Lock
+
+
+def _rlock_factory(*a, **k):
+    return CoopRLock() if _ARMED[0] else _REAL_RLOCK(*a, **k)
+
+
+def _lock_factory(*a, **k):
+    return CoopLock() if _ARMED[0] else _REAL_LOCK(*a, **k)
+
+
+class lock_factories_installed:
+    """`with lock_factories_installed(): import spec_classes` - every `from threading import RLock/Lock`
+    (and `threading.RLock` looked up later through a module alias bound meanwhile) executed inside binds the
+    factories above, so that locks the library creates *while a scheduled run is armed* are cooperative, wherever
+    in the library they are created (a lock per placeholder, per instance, ...). Unarmed they are real locks."""
+
+    def __enter__(self):
+        threading.RLock = _rlock_factory
+        threading.Lock = _lock_factory
+
+    def __exit__(self, *a):
+        threading.RLock = _REAL_RLOCK
+        threading.Lock = _REAL_LOCK
+
+
 class Decision:
     __slots__ = ("k", "cur", "runnable", "forced", "label", "chosen")
 
@@ -455,6 +505,7 @@ def patch_locks():
 
     mods = [sys.modules["spec_classes.utils.mutation"], sys.modules["spec_classes.spec_class"]]
     saved = [(m, m.__dict__.get("RLock")) for m in mods]
+    _ARMED[0] += 1
     for m in mods:
         if "RLock" in m.__dict__:
             m.RLock = CoopRLock
@@ -470,6 +521,7 @@ def patch_locks():
         inst.__dict__["lock"] = CoopRLock()
 
     def undo():
+        _ARMED[0] -= 1
         for m, v in saved:
             if v is not None:
                 m.RLock = v
